@@ -18,6 +18,7 @@ package simhook
 
 import (
 	"fmt"
+	"math/rand/v2"
 	"runtime"
 	"sort"
 	"sync"
@@ -133,7 +134,6 @@ func SetChaos(seed uint64) {
 var ChaosCrash func(site, value, stack string)
 
 var chaosSeed atomic.Uint64
-var chaosCtr atomic.Uint64
 
 func curGid() uint64 {
 	var buf [64]byte
@@ -163,7 +163,12 @@ func key(p any) uintptr {
 }
 
 func chaosYield(site string) {
-	n := chaosCtr.Add(1)
+	// No shared counter here: an atomic read-modify-write on one address at every yield
+	// would be a happens-before edge between all goroutines at all their synchronisation
+	// points, and the race detector would see almost everything as ordered (it did, until
+	// round 14). The runtime's per-thread generator involves no memory the detector
+	// watches; the seed is written once per run and only loaded here.
+	n := rand.Uint64()
 	h := n*0x9E3779B97F4A7C15 ^ chaosSeed.Load()
 	for i := 0; i < len(site); i++ {
 		h = (h ^ uint64(site[i])) * 0x100000001b3
